@@ -14,6 +14,17 @@ type Browser struct {
 	Hdr  map[string]string            // extra request headers (chain selection)
 	w    *World
 	Hops int
+	// Noise: other cookies sent in front of the jar's (raw text, may contain valueless crumbs)
+	Noise string
+	// Scheme as reported by Envoy for this client's requests ("" = https)
+	Scheme string
+}
+
+func (b *Browser) scheme() string {
+	if b.Scheme != "" {
+		return b.Scheme
+	}
+	return "https"
 }
 
 func (w *World) NewBrowser(id int) *Browser {
@@ -31,7 +42,11 @@ func (b *Browser) cookieHeader(host string) string {
 	for _, n := range names {
 		parts = append(parts, n+"="+jar[n])
 	}
-	return strings.Join(parts, "; ")
+	own := strings.Join(parts, "; ")
+	if b.Noise != "" && own != "" {
+		return b.Noise + "; " + own
+	}
+	return own
 }
 
 // ParsedCookie is the result of an independent RFC 6265 Set-Cookie parse.
